@@ -160,7 +160,7 @@ def parse_unit(path, _included=None):
             elif d == "hint":
                 if cur is None:
                     raise UnitError(f"{path}:{ln_no}: //@ hint outside extract fn")
-                m = re.match(r'hint\s+(loopbefore|loopstart|loopend|before|after|start|end)\s*(?:"(.*)")?\s*(?:#?(\d+))?', body)
+                m = re.match(r'hint\s+(loopbefore|loopafter|loopstart|loopend|before|after|start|end)\s*(?:"(.*)")?\s*(?:#?(\d+))?', body)
                 if not m:
                     raise UnitError(f"{path}:{ln_no}: bad hint directive")
                 h = {"where": m.group(1), "anchor": m.group(2), "nth": int(m.group(3) or 0), "text": []}
@@ -217,7 +217,7 @@ def find_balanced(s, start, open_ch="(", close_ch=")"):
 def splice_body(body, ex, item):
     # loop-relative hints first (positions are found through the still-present loop markers)
     for h in ex["hints"]:
-        if h["where"] not in ("loopstart", "loopend", "loopbefore"):
+        if h["where"] not in ("loopstart", "loopend", "loopbefore", "loopafter"):
             continue
         txt = "\n".join(h["text"])
         mk = "__hq_loop!(%d);" % h["nth"]
@@ -233,6 +233,10 @@ def splice_body(body, ex, item):
                 raise UnitError(f"internal: loop header of loop {h['nth']} not found in {ex['path']}")
             at = len("\n".join(lines_before[:k])) + (1 if k > 0 else 0)
             body = body[:at] + txt + "\n" + body[at:]
+        elif h["where"] == "loopafter":
+            open_idx = body.rfind("{", 0, pos)
+            close = find_balanced(body, open_idx, "{", "}")
+            body = body[: close + 1] + "\n" + txt + "\n" + body[close + 1 :]
         elif h["where"] == "loopstart":
             at = pos + len(mk)
             body = body[:at] + "\n" + txt + "\n" + body[at:]
@@ -275,7 +279,7 @@ def splice_body(body, ex, item):
     # hints
     for h in ex["hints"]:
         txt = "\n".join(h["text"])
-        if h["where"] in ("loopstart", "loopend", "loopbefore"):
+        if h["where"] in ("loopstart", "loopend", "loopbefore", "loopafter"):
             continue
         if h["where"] == "start":
             i = body.index("{")
